@@ -62,8 +62,16 @@ def run(ctx, rep):
                 return "allocation size bounded: " + g
         return None
 
+    def extra_panic(fn, an, cs):
+        # `let Some(buf) = self.bufs.get(&key) else { panic!(..) }` is the `expect` spelled out
+        if fn["qual"] == "elf_stream::CachingReader::get_bytes" and typestate_ok and any(
+                f[0] == "var" and f[2] == "None" and f[1].op == "call" and f[1].args[0].endswith("HashMap::get") for f in cs.facts):
+            return "typestate: reached only when the cache lookup misses, which the load-before-get rule excludes (%d call sites)" % n_get
+        return None
+
     c = Census(F, rep, "", in_scope)
     c.extra_precondition = extra
+    c.extra_panic = extra_panic
     c.run()
     rep.floor("assert", "panic-relevant sites in elf_stream (asserts + partial calls)", c.counts["assert"] + c.counts["partial-call"], 4)
     rep.info["site_counts"] = c.counts
@@ -125,18 +133,30 @@ def run(ctx, rep):
 
 
 def alloc_guard(an, cs):
-    """vec::from_elem(x, n): n = len(range) and the guard !(stream_len < range.end as u64) dominates"""
+    """vec::from_elem(x, n): n is the length of the requested range and `range.end <= stream_len` holds at the allocation
+    (written as `if end > stream_len { Err }`, `(end <= stream_len).then_some(..).ok_or(..)?`, `stream_len.checked_sub(end)` is Some, ...)"""
+    from ..prover import Prover
     n = cs.args[1]
-    if not (n.op == "call" and n.args[0] == "iter::ExactSizeIterator::len"):
+    r = None
+    if n.op == "call" and n.args[0] == "iter::ExactSizeIterator::len":
+        r = n.args[2][0]
+        r = r.args[0] if r.op == "refval" else r
+        end = T.proj(r, ("f", 1, "end"))
+    elif n.op == "bin" and n.args[0] == "Sub":
+        end = n.args[1]
+    elif n.op == "call" and n.args[0] == "usize::saturating_sub":
+        end = n.args[2][0]
+    else:
         return None
-    r = n.args[2][0]
-    r = r.args[0] if r.op == "refval" else r
-    end = T.proj(r, ("f", 1, "end"))
-    for f in cs.facts:
-        if f[0] == "false" and f[1].op == "bin" and f[1].args[0] == "Lt":
-            a, b = f[1].args[1], f[1].args[2]
-            if b is T.cast("IntToInt", end, "usize", "u64") and a.op == "proj" and a.args[1][2] == "stream_len":
-                return "len(range) <= range.end <= self.stream_len (guard `end > stream_len -> Err` dominates)"
+    pv = Prover(an)
+    sl = [x for f in cs.facts for y in f[1:] if hasattr(y, "subterms") for x in y.subterms() if x.op == "proj" and x.args[1][2] == "stream_len"]
+    e64 = T.cast("IntToInt", end, "usize", "u64")
+    for slt in {x for x in sl}:
+        if pv.le(e64, slt, cs.facts):
+            return "len(range) <= range.end <= self.stream_len (a guard that fails with an error otherwise dominates the allocation)"
+        for f in cs.facts:
+            if f[0] == "var" and f[2] == "Some" and f[1].op == "call" and f[1].args[0] == "u64::checked_sub" and f[1].args[2][0] is slt and f[1].args[2][1] is e64:
+                return "len(range) <= range.end <= self.stream_len (stream_len.checked_sub(end) succeeded)"
     return None
 
 
@@ -145,6 +165,23 @@ def check_read_sites(F, rep):
     p1 = T.param(1)
     n_open = n_query = 0
     OPEN = {"elf_stream::ElfStream::open_stream", "elf_stream::parse_section_headers", "elf_stream::parse_program_headers"}
+    # private helpers that only the opening functions call read on their behalf
+    from ..engine import program
+    prog = program(F)
+    callers = {}
+    for fn_ in stream_fns(F):
+        for cs_ in analyze_fn(F, fn_).calls():
+            lf_ = prog.local_fn(cs_.callee)
+            if lf_ is not None:
+                callers.setdefault(lf_["qual"], set()).add(fn_["qual"])
+    grew = True
+    while grew:
+        grew = False
+        for fn_ in stream_fns(F):
+            q_ = fn_["qual"]
+            if q_ not in OPEN and not prog.known_name(fn_) and fn_["kind"] != "Closure" and callers.get(q_) and callers[q_] <= OPEN:
+                OPEN.add(q_)
+                grew = True
     for fn in stream_fns(F):
         if fn["qual"].startswith("elf_stream::CachingReader::"):
             continue
@@ -168,7 +205,7 @@ def check_read_sites(F, rep):
                 n_query += 1
                 ok, why = query_site_ok(start, end)
             rep.require(ok, "lazy-read-site", key, cs.where(), why, "%s reads [%s, %s): %s" % (fn["qual"], pp(start)[:120], pp(end)[:120], why))
-    rep.floor("lazy-read-site", "read sites while opening", n_open, 6)
+    rep.floor("lazy-read-site", "read sites while opening", n_open, 4)     # 6 on the pinned tree; sharing the shdr[0] read between the two table parsers leaves 4-5
     rep.floor("lazy-read-site", "read sites in queries", n_query, 14)
 
 
